@@ -6,7 +6,7 @@ func TestConformingView(t *testing.T) {
 	cases := map[string]string{
 		`<a x="1	2" y='l
 f'>t	x<!-- "	" --><b z="]]>"/><![CDATA["	"]]></a>`: `<a x="1 2" y='l f'>t	x<!-- "	" --><b z="]]&gt;"/><![CDATA["	"]]></a>`,
-		`<a x="&#9;&#xA;"/>`: `<a x="&#9;&#xA;"/>`,
+		`<a x="&#9;&#xA;"/>`:        `<a x="&#9;&#xA;"/>`,
 		`<?xml version="1.0"?><a/>`: `<?xml version="1.0"?><a/>`,
 	}
 	for in, want := range cases {
